@@ -112,6 +112,22 @@ def cache_discipline(ctx, pid, fname):
             v = norm(f.rvalue_expr(d[3], d[1]))
             if v[0] == 'field' and v[1][0] == 'downcast' and v[1][2] == 'Some' and q.find_sub(v, lambda s: s[0] == 'call' and s[3] == e0[3]) is not None:
                 hit_ok = True
+    # the cache travels with the recursion: every recursive call (also from the closures handed to helpers) passes the
+    # function's own cache parameter on
+    cpar = next((l for l in range(1, f.argc + 1) if norm(strip_refs(e0[2][0])) == ('param', l, f.local_name(l))), None)
+    if cpar is not None:
+        nrec, lost = 0, []
+        me = short(f.name)
+        lib = ctx.lib
+        for g in [f] + lib.closures_of(f):
+            for bi, t, e in q.calls_named(g, me):
+                nrec += 1
+                args = [norm(strip_refs(q.resolve_captures(lib, g, a))) if g.is_closure else norm(strip_refs(a)) for a in e[2]]
+                if ('param', cpar, f.local_name(cpar)) not in args:
+                    lost.append(g.where(bi))
+        if nrec:
+            ctx.verdict(not lost, rule, '%s:%s:cache-passed-down' % (rule, fname), 'every recursive call passes the payoff cache on', f.where(0),
+                        '%d recursive calls; without the cache parameter: %s' % (nrec, lost), breaks='a cached task subtree below that call is traversed (and its regrets updated) a second time')
     ctx.verdict(hit_ok, rule, '%s:%s:hit-returns-cached' % (rule, fname), 'a cache hit returns the cached payoff unchanged', f.where(bi0), 'found: %s' % hit_ok)
 
 
@@ -127,12 +143,19 @@ def task_closure(ctx, pid, host_suffix, traversal):
     for kind, cf, agg, f, bi in regs:
         ctx.touch(cf)
         calls = q.calls_named(cf, traversal)
+        if not calls and not lib.find(traversal):
+            ctx.anchor_lost(rule, '%s: the traversal %s the tasks run' % (host_suffix, traversal), 'no function of that name any more')
+            continue
         if not calls:
             ctx.bad(rule, '%s:%s' % (rule, host_suffix), 'tasks run the cached traversal', cf.where(0), 'no call to %s in the task closure' % traversal)
             continue
         bj, t, e = calls[0]
         last_ty = t['args'][-1]['pl']['ty'] if t['args'][-1]['o'] in ('copy', 'move') else t['args'][-1]['c'].get('ty', '')
         empty_cache = last_ty.replace(' ', '') in ('&()', '()')
+        if not empty_cache:
+            # the "no cache" value of a cache type that replaced the `()` implementation: an `Empty` / `None` variant
+            lv = strip_refs(q.resolve_captures(lib, cf, e[2][-1])) if cf.is_closure else strip_refs(e[2][-1])
+            empty_cache = lv[0] == 'agg' and lv[1].startswith('adt:') and lv[1].rsplit('::', 1)[-1] in ('Empty', 'None') and not lv[2]
         node = norm(e[2][0])
         r = strip_refs(q.ret_expr(cf))
         key_ok = False
@@ -315,8 +338,18 @@ def frontier_reach_form(ctx, pid):
         ctx.anchor_lost(rule, 'thread_threshold: pop of the frontier queue')
         return
 
+    def new_reach_record():
+        """(path, variant record) of a reach struct the reference tree does not have (seen as a pair by the fact layer)"""
+        c_ = [(n_, vs[0]) for n_, vs in lib.adts.items() if n_.startswith('solve::') and len(vs) == 1 and sorted(vs[0].get('ftys', [])) == ['[f64; 2]', 'f64'] and facts._new_record(lib, n_)]
+        return c_[0] if len(c_) == 1 else None
+
     def struct_field_comp(name):
         """canonical component (1 chance reach / 2 player reaches) of a field of a private reach struct, by its type"""
+        if str(name).isdigit():
+            rec = new_reach_record()
+            if rec is not None and int(name) < 2:
+                return 1 if rec[1]['ftys'][int(name)] == 'f64' else 2
+            return None
         tys = {v['ftys'][v['fields'].index(name)] for n_, vs in lib.adts.items() if n_.startswith('solve::') and len(vs) == 1 for v in vs
                if name in v.get('fields', []) and len(v.get('ftys', [])) == len(v['fields'])}
         if tys == {'f64'}:
@@ -365,6 +398,10 @@ def frontier_reach_form(ctx, pid):
             return item
         if len(item[2]) == 2:
             r = strip_refs(item[2][1])
+            if r[0] == 'agg' and r[1] == 'tuple' and len(r[2]) == 2 and new_reach_record() is not None:
+                ARITY[0] = 2
+                i = new_reach_record()[1]['ftys'].index('f64')
+                return ('agg', 'tuple', (item[2][0], r[2][i], r[2][1 - i]))
             if r[0] == 'agg' and r[1].startswith('adt:') and len(r[2]) == 2:
                 adt = lib.adts.get(r[1][4:].rsplit('::', 1)[0])
                 if adt and sorted(adt[0].get('ftys', [])) == ['[f64; 2]', 'f64']:
@@ -377,6 +414,8 @@ def frontier_reach_form(ctx, pid):
                     # a copy of the popped reach struct scaled in place: present its two fields
                     ARITY[0] = 2
                     fc, fp = adt[0]['fields'][adt[0]['ftys'].index('f64')], adt[0]['fields'][adt[0]['ftys'].index('[f64; 2]')]
+                    if facts._new_record(lib, g_.locals[r[1]]['ty'].split('<')[0]):
+                        fc, fp = str(adt[0]['ftys'].index('f64')), str(adt[0]['ftys'].index('[f64; 2]'))     # read by position
                     return ('agg', 'tuple', (item[2][0], ('field', r, fc), ('field', r, fp)))
         return None
     for bi, t, e in q.calls_named(f, 'push'):
